@@ -97,15 +97,16 @@ def check_options():
         raise DDSMTException(
             f'cannot create a temporary file next to the output file: {e}')
 
-    # limits are handed to the operating system as integers
+    # limits are handed to the operating system as integers (the time limit
+    # also in milliseconds, when waiting for the command)
     for name in ['timeout', 'timeout_cc']:
         val = getattr(options.args(), name)
-        if val is not None and not val < 2**31:
+        if val is not None and not 0 <= val < 2**31 // 1000:
             raise DDSMTException('--{} is not a number of seconds'.format(
                 name.replace('_', '-')))
     if options.args().memout is not None \
-       and not options.args().memout < 2**31:
-        raise DDSMTException('--memout is too large')
+       and not 0 <= options.args().memout < 2**31:
+        raise DDSMTException('--memout is negative or too large')
 
 
 def setup_logging():
